@@ -225,6 +225,68 @@ fn manual_case(no: &mut u64, tag: &str, cfgl: String, downs: &[(String, String)]
     rec.line("end", &out);
 }
 
+/// Deterministic contract-conforming manual history: for every item poll_ready until Done, send;
+/// optionally one more poll_ready; then poll_finalize until Done; optionally poll again after Done.
+fn manual_fixed(no: &mut u64, tag: &str, cfgl: String, downs: &[(String, String)], items: &[String], rdy_after_last: bool, repoll: bool, rec: &mut Recorder) {
+    *no += 1;
+    rec.case(*no, tag);
+    let mut c = Case::new();
+    let mut lines = vec![cfgl];
+    for (p, (r, f)) in downs.iter().enumerate() {
+        lines.push(format!("down {p} {r} {f}"));
+    }
+    for l in &lines {
+        let out = c.exec(l, rec);
+        rec.line(l, &out);
+    }
+    let mut call = |c: &mut Case, l: &str, rec: &mut Recorder| -> String {
+        let out = c.exec(l, rec);
+        rec.line(l, &out);
+        out
+    };
+    'outer: {
+        for x in items {
+            let mut ok = false;
+            for _ in 0..12 {
+                if call(&mut c, "rdy", rec).starts_with('1') {
+                    ok = true;
+                    break;
+                }
+            }
+            if !ok {
+                break 'outer;
+            }
+            if call(&mut c, &format!("snd {x}"), rec).starts_with("panic") {
+                break 'outer;
+            }
+        }
+        if rdy_after_last {
+            call(&mut c, "rdy", rec);
+        }
+        let mut done = false;
+        for _ in 0..16 {
+            if call(&mut c, "fin", rec).starts_with('1') {
+                done = true;
+                break;
+            }
+        }
+        if done && repoll {
+            call(&mut c, "fin", rec);
+            call(&mut c, "rdy", rec);
+            call(&mut c, "fin", rec);
+        }
+    }
+    call(&mut c, "end", rec);
+}
+
+/// answer scripts with Pendings at given positions (everything else Done)
+fn pend_at(pos: &[usize]) -> String {
+    match pos.iter().max() {
+        None => "-".into(),
+        Some(m) => (0..=*m).map(|i| if pos.contains(&i) { '0' } else { '1' }).collect(),
+    }
+}
+
 fn with_pendings(items: &[String], places: &[usize]) -> Vec<String> {
     // places: positions (0..=len) before which one Pending is inserted (may repeat)
     let mut out = vec![];
@@ -310,6 +372,53 @@ pub fn generate(args: &Args, rec: &mut Recorder) {
         }
     }
 
+    // ---- bounded-exhaustive manual histories: one or two Pendings at every readiness-poll position
+    // (so that a Pending hits the drain loops inside poll_ready / poll_finalize), with and without a
+    // poll_ready between the last send and poll_finalize, with and without re-polling after Done
+    {
+        let maxpos = if thorough { 12 } else { 8 };
+        let mut rscripts: Vec<String> = vec!["-".into()];
+        for i in 0..maxpos {
+            rscripts.push(pend_at(&[i]));
+            rscripts.push(pend_at(&[i, i + 1]));
+            if thorough {
+                rscripts.push(pend_at(&[i, i + 2]));
+                rscripts.push(pend_at(&[i, i + 1, i + 2]));
+            }
+        }
+        let fscripts = ["-", "0", "00", "10"];
+        let other = ["-", "0", "10", "110"];
+        for (comb, variants, kind) in &cfgs {
+            for kv in variants {
+                let np = nports(comb, kv);
+                let strict = *comb == "resolve" && kv.contains("waker=1");
+                for items in small_inputs(*kind, np) {
+                    for (ri, r) in rscripts.iter().enumerate() {
+                        for (fi, f) in fscripts.iter().enumerate() {
+                            let variant = (ri + fi + args.seed as usize) % 4;
+                            let (rdy_after_last, repoll) = (variant & 1 == 1, variant & 2 == 2 && !strict);
+                            let mut downs: Vec<(String, String)> = vec![];
+                            for p in 0..np {
+                                if p == 0 {
+                                    downs.push((r.clone(), f.to_string()));
+                                } else {
+                                    downs.push((other[(ri + p) % 4].to_string(), other[(fi + p + 1) % 4].to_string()));
+                                }
+                            }
+                            if np >= 2 && ri % 2 == 1 {
+                                downs.swap(0, 1);
+                            }
+                            manual_fixed(&mut no, &format!("comb={comb} manual-exhaustive"), cfg_line(comb, kv, ""), &downs, &items, rdy_after_last, repoll, rec);
+                            if thorough {
+                                manual_fixed(&mut no, &format!("comb={comb} manual-exhaustive"), cfg_line(comb, kv, ""), &downs, &items, !rdy_after_last, !repoll && !strict, rec);
+                            }
+                        }
+                    }
+                }
+            }
+        }
+    }
+
     // ---- seeded random cases
     for i in 0..args.cases {
         let mut rng = root.fork(i);
@@ -318,7 +427,7 @@ pub fn generate(args: &Args, rec: &mut Recorder) {
         let np = nports(comb, kv);
         let n_items = rng.below(if thorough { 9 } else { 6 }) as usize;
         let items: Vec<String> = (0..n_items).map(|_| gen_item(&mut rng, *kind, np.max(1))).collect();
-        let max_bits = if thorough { 8 } else { 5 };
+        let max_bits = if thorough { 14 } else { 9 };
         let downs: Vec<(String, String)> = (0..np).map(|_| (rand_bits(&mut rng, max_bits), rand_bits(&mut rng, max_bits))).collect();
         let strict = *comb == "resolve" && kv.contains("waker=1");
         if rng.chance(7, 10) {
